@@ -295,7 +295,8 @@ def gen_ln1p(rng, tier, b, p):
         if s and rng.chance(1, 2) and math.log2(s) + e * math.log2(b) < -0.001:
             s = -s  # negative only when |x| < 1 (x > -1)
     # 1 + x aligns |e| digits (and the scaling is quadratic in the exponent unless B = 2)
-    e = max(-5200, min(100000 if b == 2 else 5200, e))
+    # (quick tier: 2^100000 costs the checker 9 s at normal load and ran into the case timeout when the machine was shared)
+    e = max(-5200, min((100000 if tier == "thorough" else 30000) if b == 2 else 5200, e))
     if rng.chance(1, 50):
         s = 0
     return "%s %x %s %x %s %s" % (op, b, rng.choice(MODES), p, hx(s), hx(e))
